@@ -97,7 +97,6 @@ pub assume_specification<T>[ Sender::<T>::send ](s: &Sender<T>, t: T) -> (r: Res
 //@endimpl
 
 //@impl src/util/fused_reader.rs "Drop for FusedReader<R>" inherent required
-#[verifier::exec_allows_no_decreases_clause]
 //@fn drop as drop_body props C09,C14,C15
 //@spec
     ensures
